@@ -29,6 +29,7 @@ import (
 	"github.com/markusressel/fan2go/internal/control_loop"
 	"github.com/markusressel/fan2go/internal/controller"
 	"github.com/markusressel/fan2go/internal/fans"
+	"github.com/markusressel/fan2go/internal/hwmon"
 	"github.com/markusressel/fan2go/internal/persistence"
 	"github.com/markusressel/fan2go/internal/util"
 	"github.com/prometheus/client_golang/prometheus"
@@ -51,6 +52,10 @@ type startupFanSpec struct {
 	DelayMs     int      `json:"delay_ms"`  // parinit: (virtual) start delay
 	// parinit fault injection: "" | "pwm-write" (PWM writes fail from write number FaultArg on) |
 	// "rpm-read" (RPM reads fail while the device shows PWM value FaultArg) | "ctl" (every curve evaluation fails)
+	// Discover (hwmon with RPM input only): the fan is bound the way the daemon binds it - a chip directory in a
+	// sysfs-like tree, hwmon.GetChips() + UpdateFanConfigFromHwMonControllers(platform, index) at EVERY start - and
+	// between two starts of a history the chip directory is renumbered (hwmonN -> hwmonN+1) and another chip appears before it
+	Discover bool   `json:"discover,omitempty"`
 	Fault    string `json:"fault,omitempty"`
 	FaultArg int    `json:"fault_arg,omitempty"`
 }
@@ -124,6 +129,9 @@ type startupDev struct {
 	shown     int // what the device shows
 	nWrites   int // PWM writes attempted
 	restoring int // > 0 while restorePwmEnabled runs
+	root      string // Discover: the hwmon tree
+	chipNo    int    // Discover: current N of hwmonN
+	starts    int    // Discover: starts so far
 }
 
 type startupEnv struct {
@@ -383,10 +391,20 @@ func startupWriteScript(path, body string) {
 // addDevice creates the files / scripts of one fake fan
 func (e *startupEnv) addDevice(spec startupFanSpec) *startupDev {
 	dir := filepath.Join(e.dir, "fan"+strconv.Itoa(spec.Id))
+	root, chipNo := "", 0
+	if spec.Discover && spec.Kind == "hwmon" {
+		root = filepath.Join(e.dir, "hwroot")
+		chipNo = 2 + 100*spec.Id // renumbering never collides with another fan of the fleet
+		dir = filepath.Join(root, "hwmon"+strconv.Itoa(chipNo))
+	}
 	if err := os.MkdirAll(dir, 0755); err != nil {
 		panic(err)
 	}
-	d := &startupDev{spec: spec, dir: dir}
+	d := &startupDev{spec: spec, dir: dir, root: root, chipNo: chipNo}
+	if root != "" {
+		_ = os.WriteFile(filepath.Join(dir, "name"), []byte("fakechip"+strconv.Itoa(spec.Id)+"\n"), 0644)
+		os.Setenv("VERIF_HWMON_ROOT", root)
+	}
 	d.pwmPath = filepath.Join(dir, "pwm1")
 	_ = os.WriteFile(d.pwmPath, []byte("120"), 0644)
 	d.shown = 120
@@ -425,6 +443,30 @@ func (e *startupEnv) addDevice(spec startupFanSpec) *startupDev {
 	return d
 }
 
+// moveChip renumbers the chip directory of a discovered fan (hwmonN -> hwmonN+1, as a changed driver load order does)
+// and makes another chip appear before it in the enumeration
+func (e *startupEnv) moveChip(d *startupDev) {
+	other := filepath.Join(d.root, "hwmon0")
+	if _, err := os.Stat(other); err != nil {
+		_ = os.MkdirAll(other, 0755)
+		_ = os.WriteFile(filepath.Join(other, "name"), []byte("otherchip\n"), 0644)
+		_ = os.WriteFile(filepath.Join(other, "temp1_input"), []byte("40000\n"), 0644)
+	}
+	e.mu.Lock()
+	defer e.mu.Unlock()
+	d.chipNo++
+	newDir := filepath.Join(d.root, "hwmon"+strconv.Itoa(d.chipNo))
+	if err := os.Rename(d.dir, newDir); err != nil {
+		panic(err)
+	}
+	delete(e.byPath, d.pwmPath)
+	delete(e.byPath, d.enPath)
+	delete(e.byPath, d.rpmPath)
+	d.dir = newDir
+	d.pwmPath, d.enPath, d.rpmPath = filepath.Join(newDir, "pwm1"), filepath.Join(newDir, "pwm1_enable"), filepath.Join(newDir, "fan1_input")
+	e.byPath[d.pwmPath], e.byPath[d.enPath], e.byPath[d.rpmPath] = d, d, d
+}
+
 // newFan builds the real fan object the way a fresh process would (fans.NewFan)
 func (d *startupDev) newFan() fans.Fan {
 	cfg := configuration.FanConfig{ID: "fan" + strconv.Itoa(d.spec.Id), Curve: "startup_curve"}
@@ -444,6 +486,18 @@ func (d *startupDev) newFan() fans.Fan {
 	case "hwmon":
 		cfg.HwMon = &configuration.HwMonFanConfig{Platform: "fake", Index: 1, RpmChannel: 1, PwmChannel: 1,
 			SysfsPath: d.dir, RpmInputPath: d.rpmPath, PwmPath: d.pwmPath, PwmEnablePath: d.enPath}
+		if d.root != "" {
+			// as the daemon (internal/backend.go) and the fan commands do: platform + index from the configuration,
+			// everything else from the discovered chips
+			os.Setenv("VERIF_HWMON_ROOT", d.root)
+			cfg.HwMon = &configuration.HwMonFanConfig{Platform: "fakechip" + strconv.Itoa(d.spec.Id), Index: 1}
+			if err := hwmon.UpdateFanConfigFromHwMonControllers(hwmon.GetChips(), &cfg); err != nil {
+				panic("startup: discovered fan not found: " + err.Error())
+			}
+			if cfg.HwMon.PwmPath != d.pwmPath {
+				panic("startup: discovery bound fan" + strconv.Itoa(d.spec.Id) + " to " + cfg.HwMon.PwmPath + " instead of " + d.pwmPath)
+			}
+		}
 	case "file":
 		cfg.File = &configuration.FileFanConfig{Path: d.pwmPath, RpmPath: d.rpmPath}
 	case "cmd":
@@ -803,6 +857,12 @@ func startupRun(ctx *Ctx, in startupIn) startupObs {
 		step := startupStepObs{Acts: []string{}}
 		switch c.Op {
 		case "start":
+			if d.root != "" {
+				if d.starts > 0 {
+					env.moveChip(d)
+				}
+				d.starts++
+			}
 			p := env.launch(d, 2*time.Millisecond)
 			reg, err := p.waitFirstCycle(60 * time.Second)
 			step.Acts, step.Writes = env.classify(c.Id, from)
@@ -1381,6 +1441,10 @@ func startupGenFan(rng *Rng, id int, allowCmdSweep bool) (startupFanSpec, []stri
 		f.Max = &hi
 		tags = append(tags, "max-only")
 	}
+	if f.Kind == "hwmon" && f.Rpm && rng.Bool() {
+		f.Discover = true
+		tags = append(tags, "hwmon-discovered+renumbered")
+	}
 	if !f.PwmReadable {
 		tags = append(tags, "pwm-unreadable")
 	}
@@ -1517,6 +1581,7 @@ func init() {
 						for _, mm := range []bool{false, true} {
 							for dbs := 0; dbs < 4; dbs++ {
 								f := startupFanSpec{Id: 1, Kind: kind, PwmReadable: readable, Rpm: rpm, Dev: [][2]int{}}
+								f.Discover = kind == "hwmon" && rpm && rng.Bool()
 								if kind != "cmd" && rng.Bool() {
 									f.Dev, _ = startupGenDev(rng)
 								}
